@@ -343,7 +343,7 @@ func exec(h H, rec *pbt.Rec) error {
 // Atomic visibility of a batch across tables, RocksDB only.
 func TestRocksAtomicBatch(t *testing.T) {
 	defer pbt.CleanWork()
-	rec := pbt.NewRec("C14", "TestRocksAtomicBatch", "a writer thread batches [HistoryTable B:=i, HyperTable A:=i] for i=1..N while a reader reads B then A; atomic batches imply A>=B at every read. evaluations = reads. Non-trivial: a read that happened between two writes (every read counts; distinct by read index).")
+	rec := pbt.NewRec("C14", "TestRocksAtomicBatch", "a writer thread batches [HistoryTable B:=i, HyperTable A:=i] for i=1..N while a reader reads B then A; atomic batches imply A>=B at every read. evaluations = concurrent runs (x2: any interleaving seen / at least 1% as many reads as writes); the number of interleaved reads is in the counters.")
 	defer rec.Flush()
 	x, err := rig.StartExec("nodeexec")
 	if err != nil {
@@ -358,9 +358,10 @@ func TestRocksAtomicBatch(t *testing.T) {
 	if err != nil {
 		t.Fatal(err)
 	}
-	for i := 0; i < r.Emitted && i < 200000; i++ {
-		rec.CaseHash(uint64(i)+1, true)
-	}
+	// one concurrent run per shard; the number of reads that interleaved with the writes varies
+	// with machine load and is reported as a counter, not as the evaluation count
+	rec.CaseHash(uint64(pbt.Shard())+1, r.Emitted > 0)
+	rec.CaseHash(uint64(pbt.Shard())+1001, r.Emitted > n/100)
 	rec.Count("reads", int64(r.Emitted))
 	rec.Count("writes", int64(n))
 	rec.Sample(1, map[string]int{"writes": n, "reads": r.Emitted, "violations": r.Bad})
